@@ -162,6 +162,31 @@ pub fn trace_on() -> bool {
     *T.get_or_init(|| std::env::var_os("VERIF_TRACE").is_some())
 }
 
+/// How simulated callers are executed: one after another, as shuttle coroutines on one OS
+/// thread, or as real OS threads handed a baton (threads.rs).
+#[derive(Clone, Copy, PartialEq, Eq, Debug)]
+pub enum Mode {
+    Sequential,
+    Shuttle,
+    Threads,
+}
+
+static MODE: AtomicUsize = AtomicUsize::new(0);
+
+pub fn set_mode(m: Mode) {
+    MODE.store(m as usize, Ordering::SeqCst);
+    IN_SHUTTLE.store(m == Mode::Shuttle, Ordering::SeqCst);
+    state().in_shuttle = m != Mode::Sequential;
+}
+
+pub fn mode() -> Mode {
+    match MODE.load(Ordering::SeqCst) {
+        1 => Mode::Shuttle,
+        2 => Mode::Threads,
+        _ => Mode::Sequential,
+    }
+}
+
 pub static STATE: Mutex<SimState> = Mutex::new(SimState::empty());
 static IN_SHUTTLE: AtomicBool = AtomicBool::new(false);
 static SEQ_TASK: AtomicUsize = AtomicUsize::new(0);
@@ -173,10 +198,6 @@ pub fn state() -> std::sync::MutexGuard<'static, SimState> {
     }
 }
 
-pub fn set_in_shuttle(v: bool) {
-    IN_SHUTTLE.store(v, Ordering::SeqCst);
-    state().in_shuttle = v;
-}
 
 pub fn in_shuttle() -> bool {
     IN_SHUTTLE.load(Ordering::SeqCst)
@@ -190,13 +211,13 @@ pub fn set_seq_task(t: usize) {
 /// Shuttle task ids are assigned in spawn order: 0 = main (spawner, sentinel
 /// phase), k = k-th spawned caller. Sequential mode sets it explicitly.
 pub fn cur_task() -> usize {
-    if in_shuttle() {
-        match shuttle::current::get_current_task() {
+    match mode() {
+        Mode::Shuttle => match shuttle::current::get_current_task() {
             Some(t) => usize::from(t),
             None => 0,
-        }
-    } else {
-        SEQ_TASK.load(Ordering::SeqCst)
+        },
+        Mode::Threads => crate::threads::tid(),
+        Mode::Sequential => SEQ_TASK.load(Ordering::SeqCst),
     }
 }
 
@@ -323,6 +344,43 @@ pub fn hook_callback(e: prqlc::verif_hooks::Event) {
             _ => {}
         }
     }
+    if mode() == Mode::Threads {
+        // real threads: thread-locals and the panic count are per thread, so hook events are
+        // ordinary scheduling points even while unwinding
+        match e {
+            Acquire { name, write } => {
+                let waited = crate::threads::rw_acquire(name, write);
+                let mut st = state();
+                if waited {
+                    st.counters.rw_contended += 1;
+                    st.ev(&format!("t{task} block {name} {}", if write { "w" } else { "r" }));
+                }
+                st.ev(&format!("t{task} acquire {name} {}", if write { "w" } else { "r" }));
+            }
+            Release { name, .. } => {
+                state().ev(&format!("t{task} release {name}"));
+                crate::threads::rw_release(name);
+            }
+            OnceEnter { name, done: false } => {
+                let waited = crate::threads::once_enter(name);
+                let mut st = state();
+                if waited {
+                    st.counters.once_contended += 1;
+                    if name == "STD" {
+                        st.counters.std_init_contended += 1;
+                    }
+                    st.ev(&format!("t{task} once-block {name}"));
+                }
+                st.ev(&format!("t{task} once-enter {name}"));
+            }
+            OnceExit { name, done: false } => {
+                state().ev(&format!("t{task} once-exit {name}"));
+                crate::threads::once_exit(name);
+            }
+            _ => {}
+        }
+        return;
+    }
     if !shuttle_on {
         return;
     }
@@ -445,6 +503,7 @@ impl log::Log for SimLogger {
             st.counters.log_records += 1;
             st.tasks[task].records += 1;
             let n = st.tasks[task].records;
+            // (shuttle engine only: nothing may be scheduled or injected while unwinding)
             let unwinding = std::thread::panicking();
             do_panic = st.tasks[task].panic_at == Some(n) && !unwinding;
             session = st.session_open;
@@ -486,7 +545,11 @@ impl log::Log for SimLogger {
                 let n = st.tasks[task].records;
                 st.ev(&format!("t{task} log-yield {n}"));
             }
-            shuttle::thread::yield_now();
+            match mode() {
+                Mode::Threads => crate::threads::sched_point(),
+                Mode::Shuttle => shuttle::thread::yield_now(),
+                Mode::Sequential => {}
+            }
         }
     }
 
